@@ -612,3 +612,250 @@ func sortedMemberNames(pkg *ssa.Package) []string {
 	sort.Strings(out)
 	return out
 }
+
+// r7SetvarParseErrors (C09.R5, shared with C04): setvar arithmetic uses a number only where its
+// parse succeeded: for every strconv parse in evaluateTxCollection the err != nil branch leaves
+// the function and never rejoins the path that computes the sum.  Continuing with a default
+// (treating a non-numeric current value as 0) makes the final value of a counter depend on
+// the order in which the values of a target were visited.
+func r7SetvarParseErrors(c *an.Ctx, rule string) {
+	fn := c.Fn(rule, "internal/actions.(*setvarFn).evaluateTxCollection")
+	if fn == nil {
+		return
+	}
+	n := 0
+	for _, f := range append([]*ssa.Function{fn}, privateCallees(fn, "internal/actions")...) {
+		f := f
+		an.Instrs(f, func(in ssa.Instruction) {
+			call, ok := in.(*ssa.Call)
+			if !ok {
+				return
+			}
+			sc := call.Call.StaticCallee()
+			if sc == nil || sc.Pkg == nil || sc.Pkg.Pkg.Path() != "strconv" || !(sc.Name() == "Atoi" || strings.HasPrefix(sc.Name(), "Parse")) {
+				return
+			}
+			n++
+			var errV ssa.Value
+			for _, ref := range *call.Referrers() {
+				if ex, ok := ref.(*ssa.Extract); ok && ex.Index == 1 {
+					errV = ex
+				}
+			}
+			key := fmt.Sprintf("setvar: %s result #%d used only where it parsed", sc.Name(), n)
+			if errV == nil {
+				c.Bad(rule, key, call.Pos(), "the parse error of "+an.Expr(call)+" is discarded: a value that is not a number is computed with as if it were one")
+				return
+			}
+			c.Check(errBranchLeaves(f, errV), rule, key, call.Pos(), "the err != nil branch leaves the function without rejoining the arithmetic", "the err != nil branch of "+an.Expr(call)+" continues into the arithmetic with a substitute value: a counter fed from several values of a collection then ends with a total that depends on the (map) order the values were visited in, and a non-numeric stored value is silently treated as a number")
+		})
+	}
+	c.MinCount(rule, "number parses in setvar arithmetic", n, 2)
+}
+
+// r7OneApplicationPerToken (C17.R1, shared with C09): SecRuleUpdateActionById / TargetById apply
+// their update once per id or range written.  Inside one iteration of the loop over the ids,
+// no path passes an application site (the single-id helper, or the per-rule application of the
+// range loop) and then reaches another one: a one-element range `N-N` that falls through from
+// the single-id shortcut into the range loop attaches the actions to rule N twice, and every
+// setvar of the update then counts twice per match.
+func r7OneApplicationPerToken(c *an.Ctx, rule string) {
+	n := 0
+	seenKey := map[string]int{}
+	for _, name := range []string{"directiveSecRuleUpdateActionByID", "directiveSecRuleUpdateTargetByID"} {
+		fn := c.Fn(rule, "internal/seclang."+name)
+		if fn == nil {
+			continue
+		}
+		isApp := func(in ssa.Instruction) bool {
+			cc := an.CallOf(in)
+			if cc == nil || cc.StaticCallee() == nil {
+				return false
+			}
+			sc := cc.StaticCallee()
+			if !c.P.InModule(sc) {
+				return false
+			}
+			switch {
+			case strings.HasSuffix(sc.Name(), "BySingleID"), sc.Name() == "applyParsedActions", sc.Name() == "ParseVariables":
+				return true
+			}
+			// a private helper every path of which applies
+			if sc.Object() != nil && !sc.Object().Exported() && relPkg(sc) == "internal/seclang" && sc != fn {
+				found := false
+				an.Instrs(sc, func(x ssa.Instruction) {
+					if c2 := an.CallOf(x); c2 != nil && c2.StaticCallee() != nil && (c2.StaticCallee().Name() == "applyParsedActions" || c2.StaticCallee().Name() == "ParseVariables") {
+						found = true
+					}
+				})
+				return found
+			}
+			return false
+		}
+		var apps []ssa.Instruction
+		an.Instrs(fn, func(in ssa.Instruction) {
+			if isApp(in) {
+				apps = append(apps, in)
+			}
+		})
+		for _, a := range apps {
+			outer := an.InnermostLoop(a.Block())
+			if outer == nil {
+				continue
+			}
+			// applications inside the per-rule loop of a range are one per rule: judged from the sites outside it
+			if parent := an.InnermostLoop(outer.Header.Idom()); parent != nil && parent.Blocks[outer.Header] && parent != outer {
+				continue
+			}
+			n++
+			w := an.FindPath(an.PathQuery{Fn: fn, After: a, Target: isApp, PruneEdge: func(b *ssa.BasicBlock, si int) bool {
+				return b.Succs[si] == outer.Header || !outer.Blocks[b.Succs[si]]
+			}})
+			key := fmt.Sprintf("%s: the update applied at %s is the only one for its token", name, tempName.ReplaceAllString(an.CalleeName(a.(ssa.CallInstruction)), ""))
+			seenKey[key]++
+			if seenKey[key] > 1 {
+				key += fmt.Sprintf("#%d", seenKey[key])
+			}
+			if w == nil {
+				c.Ok(rule, key, a.Pos(), "no path of the same iteration reaches another application site")
+			} else {
+				c.Bad(rule, key, w.Target.Pos(), "after this application the same iteration can reach a second application site: the update (actions or targets) is attached twice to the rule named by a one-element range such as 100-100, so each of its non-disruptive actions runs twice per match", c.P.TrailString(w)...)
+			}
+		}
+	}
+	c.MinCount(rule, "single-token application sites in SecRuleUpdate*ById", n, 4)
+}
+
+// r7EscapeUnconditional (C16.R4): the scanners that split an action list honour a backslash
+// escape wherever it stands: the test "the previous byte is a backslash" is made in every
+// iteration, under no other condition than the loop's own continuation test.  An escape that
+// only counts inside quotes makes `msg:it\'s fine,tag:x` (quoting is optional) swallow every
+// action behind it.
+func r7EscapeUnconditional(c *an.Ctx, rule string) {
+	n := 0
+	for _, rel := range []string{"internal/seclang.parseActions"} {
+		fn := c.Fn(rule, rel)
+		if fn == nil {
+			continue
+		}
+		for _, b := range fn.Blocks {
+			ifi, ok := b.Instrs[len(b.Instrs)-1].(*ssa.If)
+			if !ok || an.InnermostLoop(b) == nil {
+				continue
+			}
+			isEsc := false
+			for _, a := range an.CondAtoms(ifi.Cond, true) {
+				if (a.Op == "==" || a.Op == "!=") && a.R == "92" && strings.Contains(a.L, " - 1)]") {
+					isEsc = true
+				}
+			}
+			if !isEsc {
+				continue
+			}
+			n++
+			var foreign []string
+			for _, a := range an.FactsAtBlock(b) {
+				s := tempName.ReplaceAllString(a.String(), "")
+				if strings.Contains(a.L, "len(") || strings.Contains(a.R, "len(") {
+					continue // the loop's continuation test
+				}
+				foreign = append(foreign, s)
+			}
+			key := "the escape test of " + an.RelName(fn) + " is made under no other condition"
+			c.Check(len(foreign) == 0, rule, key, ifi.Pos(), "dominated by the loop test only", fmt.Sprintf("the previous-byte-is-a-backslash test is only reached under %v: outside that condition an escaped quote or comma is treated as a delimiter, so an unquoted value such as msg:it\\'s fine,tag:x swallows the actions that follow it", foreign))
+		}
+	}
+	c.MinCount(rule, "escape tests in the action scanner", n, 1)
+}
+
+// r7BinaryRxVerdict (C11.R1): the byte matcher behind @rx patterns with \xNN escapes has no
+// prefilter: every decision of (*binaryRX).Evaluate depends on the compiled pattern's own
+// answer (o.re.*), on tx.Capturing() or on the capture loop's index, whatever SecRxPreFilter
+// says.  The prefilter's artefacts (minimum length, literals) are computed over runes of the
+// regexp/syntax tree and do not describe what the byte matcher accepts.
+func r7BinaryRxVerdict(c *an.Ctx, rule string) {
+	fn := c.FnOpt("internal/operators.(*binaryRX).Evaluate")
+	if fn == nil {
+		return // operator compiled out in this configuration
+	}
+	n := 0
+	var foreign []string
+	var at token.Pos
+	for _, b := range fn.Blocks {
+		ifi, ok := b.Instrs[len(b.Instrs)-1].(*ssa.If)
+		if !ok {
+			continue
+		}
+		n++
+		for _, a := range an.CondAtoms(ifi.Cond, true) {
+			s := a.L + " " + a.R
+			if strings.Contains(s, "o.re.") || strings.Contains(s, "Capturing()") || strings.Contains(s, "rangeindex") {
+				continue
+			}
+			foreign = append(foreign, tempName.ReplaceAllString(a.String(), ""))
+			if !at.IsValid() {
+				at = ifi.Cond.Pos()
+			}
+		}
+	}
+	if len(fn.Blocks) > 0 {
+		c.Check(len(foreign) == 0 && n >= 1, rule, "binaryRX.Evaluate decides from the compiled pattern only", at, fmt.Sprintf("%d conditions, all over o.re / Capturing / the capture index", n), fmt.Sprintf("(*binaryRX).Evaluate branches on %v: a rejection that does not come from the byte matcher itself (for instance a minimum length counted in runes, where \\xac\\xed counts 4 bytes for a 2-byte match) makes SecRxPreFilter change what the rule matches", foreign))
+	}
+}
+
+// r7ExactMatchOneNode (C11.R3): the exact-match fast path compares the whole value with one
+// literal under one case mode.  The text and the fold flag extractExactMatch returns are read
+// from the same syntax node: a text assembled from several literal nodes with a flag OR-ed
+// over them makes `^[Tt]rue$` match "TRUE" with SecRxPreFilter On and not with it Off.
+func r7ExactMatchOneNode(c *an.Ctx, rule string) {
+	fn := c.FnOpt("internal/operators.extractExactMatch")
+	if fn == nil {
+		return
+	}
+	base := func(v ssa.Value, field string) ssa.Value {
+		for depth := 0; depth < 8; depth++ {
+			switch x := v.(type) {
+			case *ssa.Convert:
+				v = x.X
+			case *ssa.ChangeType:
+				v = x.X
+			case *ssa.BinOp:
+				if _, isC := x.Y.(*ssa.Const); isC {
+					v = x.X
+				} else if _, isC := x.X.(*ssa.Const); isC {
+					v = x.Y
+				} else {
+					return nil
+				}
+			case *ssa.UnOp:
+				if fa, ok := x.X.(*ssa.FieldAddr); ok {
+					if fv := an.FieldVar(fa); fv != nil && fv.Name() == field {
+						return fa.X
+					}
+					return nil
+				}
+				return nil
+			default:
+				return nil
+			}
+		}
+		return nil
+	}
+	n := 0
+	an.Instrs(fn, func(in ssa.Instruction) {
+		r, ok := in.(*ssa.Return)
+		if !ok || len(r.Results) != 2 {
+			return
+		}
+		if _, isC := r.Results[0].(*ssa.Const); isC {
+			if _, isC2 := r.Results[1].(*ssa.Const); isC2 {
+				return // ("", false): not an exact match
+			}
+		}
+		n++
+		b1, b2 := base(r.Results[0], "Rune"), base(r.Results[1], "Flags")
+		key := fmt.Sprintf("extractExactMatch return #%d: text and fold flag come from one literal node", n)
+		c.Check(b1 != nil && b1 == b2, rule, key, r.Pos(), "string(node.Rune), node.Flags&FoldCase != 0 over the same node", "the literal ("+tempName.ReplaceAllString(an.Expr(r.Results[0]), "")+") and its case mode ("+tempName.ReplaceAllString(an.Expr(r.Results[1]), "")+") are not read from one syntax node: a pattern whose literal is split where the fold flag changes (^[Tt]rue$, ^(?i:content)-Type$) is compared case-insensitively as a whole when SecRxPreFilter is On, so the rule matches values it does not match with the prefilter Off")
+	})
+	c.MinCount(rule, "non-trivial returns of extractExactMatch", n, 1)
+}
